@@ -18,6 +18,8 @@
 //@harness name=probe_three_keys_aab_le kind=bounded bound="trie of 3 keys x 2 bytes, shape (a,a,b); probe of 2 symbolic bytes" tier=thorough timeout=3600 gate=yes
 //@harness name=probe_three_keys_abb_ge kind=bounded bound="trie of 3 keys x 2 bytes, shape (a,b,b); probe of 2 symbolic bytes" tier=thorough timeout=3600 gate=yes
 //@harness name=probe_three_keys_abb_le kind=bounded bound="trie of 3 keys x 2 bytes, shape (a,b,b); probe of 2 symbolic bytes" tier=thorough timeout=3600 gate=yes
+//@harness name=probe_two_keys_three_bytes_ge kind=bounded bound="trie of 2 keys x 3 bytes with distinct first bytes (a single-child node below each branch); probe of 3 symbolic bytes" tier=quick timeout=1800
+//@harness name=probe_two_keys_three_bytes_le kind=bounded bound="trie of 2 keys x 3 bytes with distinct first bytes (a single-child node below each branch); probe of 3 symbolic bytes" tier=quick timeout=1800
 //@obligation C08.surf_probe.ge_sound : whenever some key of the zone is >= (inclusive) or > (exclusive) the lower bound, may_overlap_ge reports the zone [bounded shapes]
 //@obligation C08.surf_probe.le_sound : whenever some key of the zone is <= (inclusive) or < (exclusive) the upper bound, may_overlap_le reports the zone [bounded shapes]
 
@@ -138,4 +140,50 @@
         // root -a-> n1, -b-> n2 ; n1 -x-> leaf3 ; n2 -y-> leaf4, -z-> leaf5
         let t = trie(vec![2, 1, 2, 0, 0, 0], vec![0, 2, 3, 5, 5, 5], vec![a, b, x, y, z], vec![1, 2, 3, 4, 5], vec![0b0011_1000]);
         check_le(&t, &[[a, x], [b, y], [b, z]]);
+    }
+
+    fn check3_ge(t: &SurfTrie, keys: &[[u8; 3]]) {
+        let p: [u8; 3] = kani::any();
+        let q = SurfQuery { trie: t };
+        let mut any_incl = false; let mut any_excl = false;
+        for k in keys.iter() { any_incl = any_incl || *k >= p; any_excl = any_excl || *k > p; }
+        let incl = q.may_overlap_ge_with_stats(&p, true).0;
+        let excl = q.may_overlap_ge_with_stats(&p, false).0;
+        kani::cover!(any_incl && p[0] == keys[0][0] && p[1] == keys[0][1] && p[2] > keys[0][2], "COVER:probe_leaves_the_first_key_at_the_last_byte");
+        assert!((!any_incl || incl) && (!any_excl || excl), "OBL:C08.surf_probe.ge_sound");
+    }
+
+    fn check3_le(t: &SurfTrie, keys: &[[u8; 3]]) {
+        let p: [u8; 3] = kani::any();
+        let q = SurfQuery { trie: t };
+        let mut any_incl = false; let mut any_excl = false;
+        for k in keys.iter() { any_incl = any_incl || *k <= p; any_excl = any_excl || *k < p; }
+        let incl = q.may_overlap_le_with_stats(&p, true).0;
+        let excl = q.may_overlap_le_with_stats(&p, false).0;
+        kani::cover!(any_incl && p[0] == keys[1][0] && p[1] == keys[1][1] && p[2] < keys[1][2], "COVER:probe_leaves_the_last_key_at_the_last_byte");
+        assert!((!any_incl || incl) && (!any_excl || excl), "OBL:C08.surf_probe.le_sound");
+    }
+
+    // root -a-> n1, -b-> n2 ; n1 -x-> n3 ; n2 -y-> n4 ; n3 -u-> leaf5 ; n4 -v-> leaf6
+    // (a probe that follows a, x and then finds no edge on its side must resume at the ROOT, two levels up)
+    fn trie_two_by_three(a: u8, b: u8, x: u8, y: u8, u: u8, v: u8) -> std::mem::ManuallyDrop<SurfTrie> {
+        trie(vec![2, 1, 1, 1, 1, 0, 0], vec![0, 2, 3, 4, 5, 6, 6], vec![a, b, x, y, u, v], vec![1, 2, 3, 4, 5, 6], vec![0b0110_0000])
+    }
+
+    #[kani::proof]
+    #[kani::unwind(8)]
+    fn probe_two_keys_three_bytes_ge() {
+        let (a, b, x, y, u, v): (u8, u8, u8, u8, u8, u8) = (kani::any(), kani::any(), kani::any(), kani::any(), kani::any(), kani::any());
+        kani::assume(a < b);
+        let t = trie_two_by_three(a, b, x, y, u, v);
+        check3_ge(&t, &[[a, x, u], [b, y, v]]);
+    }
+
+    #[kani::proof]
+    #[kani::unwind(8)]
+    fn probe_two_keys_three_bytes_le() {
+        let (a, b, x, y, u, v): (u8, u8, u8, u8, u8, u8) = (kani::any(), kani::any(), kani::any(), kani::any(), kani::any(), kani::any());
+        kani::assume(a < b);
+        let t = trie_two_by_three(a, b, x, y, u, v);
+        check3_le(&t, &[[a, x, u], [b, y, v]]);
     }
